@@ -562,3 +562,444 @@ Proof.
          [LFrame [mkCmd 1 [KConnect] 0 false SOk] false; LFrame [mkCmd 7 [KSend] 0 false SOk] false].
   eexists. eexists. exists 7. vm_compute. repeat split; try reflexivity. discriminate.
 Qed.
+
+(* ---------- gate / pong rules over runs: the observation-derived state tracks the model ---------- *)
+
+Definition script_wf (sc : script) : Prop := match sc with SErr 0 => False | _ => True end.
+Definition label_wf (l : label) : Prop :=
+  match l with LFrame cs _ => Forall (fun c => script_wf (c_script c)) cs | _ => True end.
+
+Definition has_close (l : list out) : bool :=
+  existsb (fun o => match o with OClose _ => true | _ => false end) l.
+
+Definition rel (a : ost) (s : st) : Prop :=
+  a_closed a = s_closed s /\ a_auth a = s_auth s /\ (s_auth s = false -> s_pend s = []).
+
+Lemma scan_outs_app : forall l1 l2 a,
+  scan_outs a (l1 ++ l2) =
+  let '(a1, ok1) := scan_outs a l1 in let '(a2, ok2) := scan_outs a1 l2 in (a2, ok1 && ok2).
+Proof.
+  induction l1 as [|o r IH]; intros l2 a; cbn [app scan_outs].
+  - destruct (scan_outs a l2); reflexivity.
+  - destruct (scan_out a o) as [a1 ok1]. rewrite IH.
+    destruct (scan_outs a1 r) as [a2 ok2]. destruct (scan_outs a2 l2) as [a3 ok3].
+    rewrite andb_assoc; reflexivity.
+Qed.
+
+Lemma scan_ping : forall l a, a_ping (fst (scan_outs a l)) = a_ping a.
+Proof.
+  induction l as [|o r IH]; intro a; cbn [scan_outs]; [reflexivity|].
+  destruct (scan_out a o) as [a1 ok1] eqn:E. specialize (IH a1).
+  destruct (scan_outs a1 r) as [a2 ok2]. cbn [fst] in *. rewrite IH.
+  destruct o; cbn [scan_out] in E; try destruct (kind_eqb k KConnect); inversion E; reflexivity.
+Qed.
+
+Lemma scan_authed : forall l a,
+  a_auth a = true ->
+  snd (scan_outs a l) = true /\ a_auth (fst (scan_outs a l)) = true /\
+  a_closed (fst (scan_outs a l)) = a_closed a || has_close l.
+Proof.
+  induction l as [|o r IH]; intros a Ha; cbn [scan_outs has_close existsb].
+  - rewrite orb_false_r; auto.
+  - destruct (scan_out a o) as [a1 ok1] eqn:E.
+    assert (ok1 = true /\ a_auth a1 = true /\
+            a_closed a1 = a_closed a || match o with OClose _ => true | _ => false end) as [-> [Ha1 Hc1]].
+    { destruct o; cbn [scan_out] in E; try destruct (kind_eqb k KConnect); inversion E; subst;
+        cbn; rewrite ?Ha, ?orb_false_r, ?orb_true_r; auto. }
+    destruct (IH a1 Ha1) as [I1 [I2 I3]]. destruct (scan_outs a1 r) as [a2 ok2]. cbn [fst snd] in *.
+    subst ok2. rewrite I3, Hc1, orb_assoc. auto.
+Qed.
+
+Lemma vis_app : forall a b, vis (a ++ b) = vis a ++ vis b.
+Proof. intros; unfold vis; apply filter_app. Qed.
+
+Lemma first_of_connect : forall c,
+  has KConnect c = true ->
+  first_of frame_order c = Some KConnect /\ first_of handler_order c = Some KConnect.
+Proof. intros c H; unfold first_of, frame_order, handler_order; cbn [find]; rewrite H; auto. Qed.
+
+(* authentication and closedness of the model are visible in the outputs *)
+Lemma hc_flags : forall g s c s' o p,
+  handle_command g s c = Some (s', o, p) ->
+  (s_auth s = true -> s_auth s' = true) /\
+  s_closed s' = s_closed s || has_close (vis o) /\
+  (s_auth s = true -> True).
+Proof.
+  intros g s c s' o p H. unfold handle_command in H.
+  destruct (s_closed s) eqn:Hc. { inversion H; subst s' o p; rewrite Hc; auto. }
+  destruct (s_unusable s). { inversion H; subst s' o p; cbn; auto. }
+  destruct (negb (s_auth s) && negb (has KConnect c)). { inversion H; subst s' o p; cbn; auto. }
+  destruct (is_pong c). { destruct (s_ping s); inversion H; subst s' o p; cbn; auto. }
+  destruct (first_of frame_order c) as [k0|]. 2: { inversion H; subst s' o p; cbn; auto. }
+  destruct (first_of handler_order c) as [k|]. 2: { inversion H; subst s' o p; cbn; auto. }
+  destruct (run_handler g s c k) as [code|code|inv r|  |inv| ]; try discriminate.
+  - destruct (has KConnect c); inversion H; subst s' o p; destruct (connect_invoked s c k); cbn; auto.
+  - inversion H; subst s' o p; destruct (connect_invoked s c k); cbn; auto.
+  - destruct r; inversion H; subst s' o p; destruct inv; destruct k; cbn; rewrite ?Hc; auto.
+  - inversion H; subst s' o p; cbn; auto.
+  - inversion H; subst s' o p; destruct inv; cbn; auto.
+Qed.
+
+Ltac invs H :=
+  let A := fresh in let B := fresh in let C := fresh in
+  injection H as A B C; try rewrite <- A in *; try rewrite <- B in *; try rewrite <- C in *; clear A B C.
+
+Lemma hc_pend_auth : forall g s c s' o p,
+  handle_command g s c = Some (s', o, p) -> s_auth s = false -> s_pend s = [] ->
+  s_auth s' = false -> s_pend s' = [].
+Proof.
+  intros g s c s' o p H Ha Hp Ha'. unfold handle_command in H.
+  destruct (s_closed s). { inversion H; subst s' o p; assumption. }
+  destruct (s_unusable s). { inversion H; subst s' o p; assumption. }
+  destruct (negb (s_auth s) && negb (has KConnect c)) eqn:G. { inversion H; subst s' o p; assumption. }
+  rewrite Ha in G. cbn in G. apply negb_false_iff in G.
+  destruct (is_pong c). { destruct (s_ping s); inversion H; subst s' o p; assumption. }
+  destruct (first_of_connect c G) as [F1 F2]; rewrite F1, F2 in H.
+  unfold run_handler in H. rewrite Ha in H. cbn [connect_invoked] in H.
+  destruct (c_script c); rewrite ?G in H; inversion H; subst s' o p; cbn in *; try assumption; try discriminate.
+Qed.
+
+Lemma hc_scan : forall g s c s' o p a,
+  handle_command g s c = Some (s', o, p) -> script_wf (c_script c) -> rel a s ->
+  snd (scan_outs a (vis o)) = true /\ rel (fst (scan_outs a (vis o))) s'.
+Proof.
+  intros g s c s' o p a H W [Rc [Ra Rp]].
+  destruct (s_auth s) eqn:Ha.
+  - (* authenticated: nothing to check, only to track *)
+    destruct (hc_flags _ _ _ _ _ _ H) as [Am [Cl _]]. rewrite Ha in Am.
+    destruct (scan_authed (vis o) a Ra) as [S1 [S2 S3]].
+    split; [assumption|]. split; [rewrite S3, Cl, Rc; reflexivity|].
+    split; [rewrite S2, (Am eq_refl); reflexivity|]. rewrite (Am eq_refl); discriminate.
+  - pose proof (hc_pend_auth _ _ _ _ _ _ H Ha (Rp eq_refl)) as Pp.
+    unfold handle_command in H.
+    destruct (s_closed s) eqn:Hc. { invs H; cbn; unfold rel; rewrite Hc, Ha; auto. }
+    destruct (s_unusable s). { invs H; cbn; unfold rel; cbn; rewrite Ha; auto. }
+    rewrite Ha in H.
+    destruct (negb false && negb (has KConnect c)) eqn:G.
+    { invs H; cbn; unfold rel; cbn; rewrite Ha; auto. }
+    cbn in G. apply negb_false_iff in G.
+    destruct (is_pong c).
+    { destruct (s_ping s); invs H; cbn; unfold rel; cbn; rewrite ?Hc, Ha; auto. }
+    destruct (first_of_connect c G) as [F1 F2]; rewrite F1, F2 in H.
+    unfold run_handler in H. rewrite ?Ha in H. cbn [connect_invoked negb] in H. rewrite ?Ha, ?G in H. cbn [negb] in H.
+    destruct (c_script c) as [|code|code|] eqn:Sc; invs H; cbn;
+      unfold rel, optN_eqb; cbn; rewrite ?N.eqb_refl, ?Ra, ?Rc, ?Hc, ?Ha; cbn; auto.
+    (* connect error: error code is not 0, so it is not taken for a successful connect *)
+    destruct code; [contradiction|]. cbn. auto.
+Qed.
+
+Lemma scan_app_fst : forall l1 l2 a,
+  fst (scan_outs a (l1 ++ l2)) = fst (scan_outs (fst (scan_outs a l1)) l2).
+Proof.
+  intros; rewrite scan_outs_app. destruct (scan_outs a l1) as [a1 ok1]; cbn [fst].
+  destruct (scan_outs a1 l2); reflexivity.
+Qed.
+Lemma scan_app_snd : forall l1 l2 a,
+  snd (scan_outs a (l1 ++ l2)) = snd (scan_outs a l1) && snd (scan_outs (fst (scan_outs a l1)) l2).
+Proof.
+  intros; rewrite scan_outs_app. destruct (scan_outs a l1) as [a1 ok1]; cbn [fst snd].
+  destruct (scan_outs a1 l2); reflexivity.
+Qed.
+
+Definition wf_cmds (cs : list cmd) : Prop := Forall (fun c => script_wf (c_script c)) cs.
+
+Lemma hcs_scan : forall g cs s s' o p a,
+  handle_cmds g s cs = Some (s', o, p) -> wf_cmds cs -> rel a s ->
+  snd (scan_outs a (vis o)) = true /\ rel (fst (scan_outs a (vis o))) s'.
+Proof.
+  induction cs as [|c r IH]; intros s s' o p a H W R; cbn [handle_cmds] in H.
+  - inversion H; subst. cbn. auto.
+  - inversion W as [|? ? Wc Wr]; subst.
+    destruct (handle_command g s c) as [[[s1 o1] p1]|] eqn:E; [|discriminate].
+    destruct (hc_scan _ _ _ _ _ _ a E Wc R) as [S1 R1].
+    destruct p1.
+    + destruct (handle_cmds g s1 r) as [[[s2 o2] p2]|] eqn:E2; [|discriminate].
+      inversion H; subst. rewrite vis_app, scan_app_fst, scan_app_snd, S1.
+      exact (IH _ _ _ _ _ E2 Wr R1).
+    + inversion H; subst. auto.
+Qed.
+
+Lemma rel_close : forall a s code,
+  rel a s -> rel (fst (scan_outs a [OClose code])) (set_closed s).
+Proof. intros a s code [Rc [Ra Rp]]; cbn; unfold rel; cbn; auto. Qed.
+
+Lemma hf_scan : forall g s cs m s' o a,
+  handle_frame g s cs m = Some (s', o) -> wf_cmds cs -> rel a s ->
+  snd (scan_outs a (vis o)) = true /\ rel (fst (scan_outs a (vis o))) s'.
+Proof.
+  intros g s cs m s' o a H W R. unfold handle_frame in H.
+  destruct (handle_cmds g s cs) as [[[s1 o1] p1]|] eqn:E; [|discriminate].
+  destruct (hcs_scan _ _ _ _ _ _ a E W R) as [S1 R1].
+  assert (X : forall code, snd (scan_outs a (vis (o1 ++ [OClose code]))) = true /\
+                           rel (fst (scan_outs a (vis (o1 ++ [OClose code])))) (set_closed s1)).
+  { intro code. rewrite vis_app. change (vis [OClose code]) with [OClose code].
+    rewrite scan_app_fst, scan_app_snd, S1. split; [reflexivity|apply rel_close; assumption]. }
+  destruct p1; [destruct (m || match cs with [] => true | _ => false end)|];
+    try destruct (s_closed s1); inversion H; subst; auto.
+Qed.
+
+Lemma take_pend_nil : forall tok, take_pend tok [] = None. Proof. reflexivity. Qed.
+
+Lemma complete_scan : forall s tok r s' o a,
+  complete s tok r = (s', o) -> rel a s ->
+  snd (scan_outs a (vis o)) = true /\ rel (fst (scan_outs a (vis o))) s'.
+Proof.
+  intros s tok r s' o a H [Rc [Ra Rp]]. unfold complete in H.
+  destruct (take_pend tok (s_pend s)) as [[p rest]|] eqn:E.
+  2: { inversion H; subst. cbn. unfold rel; auto. }
+  destruct (s_auth s) eqn:Ha.
+  2: { rewrite (Rp eq_refl) in E. cbn in E. discriminate. }
+  destruct (scan_authed (vis o) a Ra) as [S1 [S2 S3]]. split; [assumption|].
+  destruct (s_closed s) eqn:Hc.
+  { inversion H; subst. cbn. unfold rel; cbn. rewrite Ha. repeat split; auto; try discriminate; try congruence. }
+  unfold rel. rewrite S2, S3, Rc.
+  destruct r; inversion H; subst; cbn; try destruct (p_kind p); cbn; rewrite ?Ha, ?Hc; repeat split; auto; try discriminate; try congruence.
+Qed.
+
+(* the ping bookkeeping of the model changes only on pongs *)
+Lemma hc_ping : forall g s c s' o p,
+  handle_command g s c = Some (s', o, p) -> is_pong c = false -> s_ping s' = s_ping s.
+Proof.
+  intros g s c s' o p H P. unfold handle_command in H. rewrite P in H.
+  destruct (s_closed s). { inversion H; subst; reflexivity. }
+  destruct (s_unusable s). { inversion H; subst s' o p; reflexivity. }
+  destruct (negb (s_auth s) && negb (has KConnect c)). { inversion H; subst s' o p; reflexivity. }
+  destruct (first_of frame_order c) as [k0|]. 2: { inversion H; subst s' o p; reflexivity. }
+  destruct (first_of handler_order c) as [k|]. 2: { inversion H; subst s' o p; reflexivity. }
+  destruct (run_handler g s c k) as [code|code|inv r|  |inv| ]; try discriminate.
+  - destruct (has KConnect c); inversion H; subst s' o p; reflexivity.
+  - inversion H; subst s' o p; reflexivity.
+  - destruct r; inversion H; subst s' o p; try reflexivity. destruct k; reflexivity.
+  - inversion H; subst s' o p; reflexivity.
+  - inversion H; subst s' o p; reflexivity.
+Qed.
+
+Lemma hcs_ping : forall g cs s s' o p,
+  handle_cmds g s cs = Some (s', o, p) -> existsb is_pong cs = false -> s_ping s' = s_ping s.
+Proof.
+  induction cs as [|c r IH]; intros s s' o p H P; cbn [handle_cmds] in H.
+  - inversion H; subst; reflexivity.
+  - cbn [existsb] in P. apply orb_false_iff in P. destruct P as [Pc Pr].
+    destruct (handle_command g s c) as [[[s1 o1] p1]|] eqn:E; [|discriminate].
+    pose proof (hc_ping _ _ _ _ _ _ E Pc) as E1.
+    destruct p1.
+    + destruct (handle_cmds g s1 r) as [[[s2 o2] p2]|] eqn:E2; [|discriminate].
+      inversion H; subst. rewrite (IH _ _ _ _ E2 Pr). assumption.
+    + inversion H; subst. assumption.
+Qed.
+
+Lemma hf_ping : forall g s cs m s' o,
+  handle_frame g s cs m = Some (s', o) -> existsb is_pong cs = false -> s_ping s' = s_ping s.
+Proof.
+  intros g s cs m s' o H P. unfold handle_frame in H.
+  destruct (handle_cmds g s cs) as [[[s1 o1] p1]|] eqn:E; [|discriminate].
+  pose proof (hcs_ping _ _ _ _ _ _ E P) as E1.
+  destruct p1; [destruct (m || match cs with [] => true | _ => false end)|];
+    try destruct (s_closed s1); inversion H; subst; assumption.
+Qed.
+
+Lemma complete_ping : forall s tok r s' o, complete s tok r = (s', o) -> s_ping s' = s_ping s.
+Proof.
+  intros s tok r s' o H. unfold complete in H.
+  destruct (take_pend tok (s_pend s)) as [[p rest]|]; [|inversion H; subst; reflexivity].
+  destruct (s_closed s); [inversion H; subst; reflexivity|].
+  destruct r; inversion H; subst; try reflexivity. destruct (p_kind p); reflexivity.
+Qed.
+
+Definition tracks (a : ost) (s : st) : Prop :=
+  rel a s /\ usable_inv s /\ (a_closed a = false -> forall b, a_ping a = Some b -> b = s_ping s).
+
+Lemma outs_eqb_refl_close : outs_eqb [OClose 3501] [OClose 3501] = true. Proof. reflexivity. Qed.
+
+Lemma step_ok_sound : forall g s l s' o a,
+  step g s l = Some (s', o) -> label_wf l -> tracks a s ->
+  snd (step_ok a l o) = true /\ tracks (fst (step_ok a l o)) s'.
+Proof.
+  intros g s l s' o a H W [R [U Pg]].
+  pose proof (step_usable_inv _ _ _ _ _ H U) as U'.
+  assert (SC : snd (scan_outs a (vis o)) = true /\ rel (fst (scan_outs a (vis o))) s').
+  { destruct l as [cs m| |tok r]; cbn [step] in H.
+    - eapply hf_scan; eassumption.
+    - destruct (s_closed s); inversion H; subst; cbn; destruct R as [Rc [Ra Rp]]; unfold rel; auto.
+    - inversion H as [H']. eapply complete_scan; eassumption. }
+  destruct SC as [S1 R1].
+  pose proof (scan_ping (vis o) a) as Pa.
+  unfold step_ok. destruct (scan_outs a (vis o)) as [a1 hok] eqn:SO. cbn [fst snd] in *. subst hok.
+  destruct R as [Rc [Ra Rp]].
+  destruct l as [cs m| |tok r]; cbn [step] in H.
+  - (* frame *)
+    destruct (a_closed a) eqn:Ac.
+    { cbn [fst snd]. split; [reflexivity|]. split; [assumption|]. split; [assumption|].
+      destruct R1 as [Rc1 _]. intro Hc1. exfalso.
+      assert (s_closed s' = true) by (apply (step_closed g s (LFrame cs m) s' o); [exact H|congruence]). congruence. }
+    assert (Hc : s_closed s = false) by congruence.
+    assert (Hu : s_unusable s = false) by (destruct (s_unusable s) eqn:Us; [rewrite (U Us) in Hc; discriminate|reflexivity]).
+    destruct cs as [|c rest].
+    { cbn [fst snd]. split; [reflexivity|]. split; [assumption|]. split; [assumption|].
+      intros Hc1 b Hb. rewrite Pa in Hb. rewrite (hf_ping _ _ _ _ _ _ H eq_refl). apply Pg; [reflexivity|assumption]. }
+    destruct (negb (a_auth a) && negb (has KConnect c)) eqn:G.
+    { (* gate *)
+      apply andb_prop in G. destruct G as [G1 G2]. apply negb_true_iff in G1, G2.
+      rewrite gate_frame in H by congruence. inversion H; subst. cbn [fst snd]. split; [reflexivity|].
+      split; [assumption|]. split; [assumption|]. destruct R1 as [Rc1 _]. cbn in Rc1. intro Hc1. congruence. }
+    destruct (a_auth a && is_pong c && match rest with [] => true | _ => false end) eqn:PG.
+    { apply andb_prop in PG. destruct PG as [PG Pr]. apply andb_prop in PG. destruct PG as [Pa1 Pp].
+      destruct rest; [|discriminate].
+      assert (Hauth : s_auth s = true) by congruence.
+      destruct (a_ping a) as [[|]|] eqn:AP.
+      - (* expected pong *)
+        specialize (Pg eq_refl true eq_refl).
+        unfold handle_frame in H. cbn [handle_cmds] in H.
+        rewrite pong_expected in H by (auto; congruence).
+        destruct m.
+        + cbn [fst snd]. split; [reflexivity|]. split; [assumption|]. split; [assumption|].
+          cbn in H. rewrite Hc in H. inversion H; subst. destruct R1 as [Rc1 _]. cbn in Rc1. intro Hc1. congruence.
+        + cbn in H. inversion H; subst. cbn [fst snd]. split; [reflexivity|].
+          split; [assumption|]. split; [assumption|]. intros _ b Hb. cbn in Hb. inversion Hb; reflexivity.
+      - (* pong without ping *)
+        specialize (Pg eq_refl false eq_refl).
+        unfold handle_frame in H. cbn [handle_cmds] in H.
+        rewrite pong_unexpected in H by (auto; congruence). cbn in H. inversion H; subst.
+        cbn [fst snd]. split; [reflexivity|]. split; [assumption|]. split; [assumption|].
+        destruct R1 as [Rc1 _]. cbn in Rc1. intro Hc1. congruence.
+      - cbn [fst snd]. split; [reflexivity|]. split; [assumption|]. split; [assumption|].
+        intros _ b Hb. rewrite Pa in Hb. discriminate. }
+    destruct (existsb is_pong (c :: rest)) eqn:EP.
+    { cbn [fst snd]. split; [reflexivity|]. split; [exact R1|]. split; [assumption|].
+      intros _ b Hb. discriminate. }
+    cbn [fst snd]. split; [reflexivity|]. split; [assumption|]. split; [assumption|].
+    intros Hc1 b Hb. rewrite Pa in Hb. rewrite (hf_ping _ _ _ _ _ _ H EP). apply Pg; [reflexivity|assumption].
+  - (* server ping *)
+    rewrite Rc. destruct (s_closed s) eqn:Hc; inversion H; subst; cbn [fst snd]; (split; [reflexivity|]).
+    + split; [assumption|]. split; [assumption|]. destruct R1 as [Rc1 _]. intro X; congruence.
+    + split; [exact R1|]. split; [assumption|]. intros _ b Hb. cbn in Hb. inversion Hb; reflexivity.
+  - (* completion *)
+    inversion H as [H']. cbn [fst snd]. split; [reflexivity|]. split; [assumption|]. split; [assumption|].
+    intros Hc1 b Hb. rewrite Pa in Hb. rewrite (complete_ping _ _ _ _ _ H').
+    apply Pg; [|assumption]. destruct R1 as [Rc1 _].
+    destruct (a_closed a) eqn:Ac; [|reflexivity]. exfalso.
+    assert (s_closed s' = true) by (apply (step_closed g s (LComplete tok r) s' o); [exact H|congruence]). congruence.
+Qed.
+
+Lemma tracks_init : tracks ost0 init.
+Proof.
+  split; [unfold rel; cbn; auto|]. split; [apply init_usable|].
+  intros _ b H; inversion H; reflexivity.
+Qed.
+
+(* every run of the model passes the gate / pong / handler-order rules *)
+Theorem exec_steps_ok : forall g ls s s' os a,
+  exec g s ls = Some (s', os) -> Forall label_wf ls -> tracks a s -> steps_ok a ls os = true.
+Proof.
+  induction ls as [|l r IH]; intros s s' os a H W T; cbn [exec] in H.
+  - inversion H; subst; reflexivity.
+  - inversion W as [|? ? Wl Wr]; subst.
+    destruct (step g s l) as [[s1 o1]|] eqn:E; [|discriminate].
+    destruct (exec g s1 r) as [[s2 os2]|] eqn:E2; [|discriminate].
+    inversion H; subst. cbn [steps_ok].
+    destruct (step_ok_sound _ _ _ _ _ a E Wl T) as [S1 T1].
+    destruct (step_ok a l o1) as [a1 ok]. cbn [fst snd] in *. subst ok.
+    cbn [andb]. eapply IH; eassumption.
+Qed.
+
+(* ---------- closedness is visible: an OClose is emitted exactly when the model closes ---------- *)
+
+Lemma has_close_app : forall a b, has_close (a ++ b) = has_close a || has_close b.
+Proof. intros; unfold has_close; apply existsb_app. Qed.
+
+Lemma has_close_vis : forall l, has_close (vis l) = has_close l.
+Proof.
+  unfold has_close, vis.
+  induction l as [|o r IH]; [reflexivity|]. destruct o; cbn [filter visible existsb]; rewrite IH; reflexivity.
+Qed.
+
+Lemma hcs_close : forall g cs s s' o p,
+  handle_cmds g s cs = Some (s', o, p) -> s_closed s' = s_closed s || has_close o.
+Proof.
+  induction cs as [|c r IH]; intros s s' o p H; cbn [handle_cmds] in H.
+  - inversion H; subst. cbn. rewrite orb_false_r; reflexivity.
+  - destruct (handle_command g s c) as [[[s1 o1] p1]|] eqn:E; [|discriminate].
+    destruct (hc_flags _ _ _ _ _ _ E) as [_ [C1 _]]. rewrite has_close_vis in C1.
+    destruct p1.
+    + destruct (handle_cmds g s1 r) as [[[s2 o2] p2]|] eqn:E2; [|discriminate].
+      inversion H; subst. rewrite (IH _ _ _ _ E2), C1, has_close_app, orb_assoc. reflexivity.
+    + inversion H; subst. assumption.
+Qed.
+
+Lemma step_close : forall g s l s' o,
+  step g s l = Some (s', o) -> s_closed s' = s_closed s || has_close o.
+Proof.
+  intros g s l s' o H. destruct l as [cs m| |tok r]; cbn [step] in H.
+  - unfold handle_frame in H.
+    destruct (handle_cmds g s cs) as [[[s1 o1] p1]|] eqn:E; [|discriminate].
+    pose proof (hcs_close _ _ _ _ _ _ E) as C.
+    destruct p1; [destruct (m || match cs with [] => true | _ => false end)|];
+      try (destruct (s_closed s1) eqn:C1); inversion H; subst; rewrite ?has_close_app; cbn;
+      rewrite ?orb_true_r, ?orb_false_r; congruence.
+  - destruct (s_closed s) eqn:C; inversion H; subst; cbn; rewrite ?C; reflexivity.
+  - inversion H as [H']. unfold complete in H'.
+    destruct (take_pend tok (s_pend s)) as [[p rest]|]; [|inversion H'; subst; cbn; rewrite orb_false_r; reflexivity].
+    destruct (s_closed s) eqn:C; [inversion H'; subst; cbn; assumption|].
+    destruct r; inversion H'; subst; cbn; try destruct (p_kind p); cbn; rewrite ?C; reflexivity.
+Qed.
+
+Lemma exec_close : forall g ls s s' os,
+  exec g s ls = Some (s', os) -> s_closed s' = s_closed s || closed_seen os.
+Proof.
+  induction ls as [|l r IH]; intros s s' os H; cbn [exec] in H.
+  - inversion H; subst. cbn. rewrite orb_false_r; reflexivity.
+  - destruct (step g s l) as [[s1 o1]|] eqn:E; [|discriminate].
+    destruct (exec g s1 r) as [[s2 os2]|] eqn:E2; [|discriminate].
+    inversion H; subst. rewrite (IH _ _ _ E2), (step_close _ _ _ _ _ E).
+    unfold closed_seen. cbn [concat]. rewrite existsb_app, orb_assoc. reflexivity.
+Qed.
+
+(* ---------- the model passes the decidable predicates used as oracle ---------- *)
+
+Lemma sentE_le_sent : forall id ls, (sentE id ls <= sent id ls)%nat.
+Proof.
+  intros; unfold sentE, sent. induction (flat_map cmds_of ls) as [|c r IH]; [cbn; lia|].
+  cbn [filter]. destruct (c_id c =? id), (expects c); cbn [andb length]; lia.
+Qed.
+
+Theorem exec_atmost_ok : forall g ls s' os,
+  exec g init ls = Some (s', os) -> atmost_ok ls os = true.
+Proof.
+  intros g ls s' os H. unfold atmost_ok. apply forallb_forall. intros id _.
+  apply Nat.leb_le. pose proof (once_at_most _ _ _ _ id H). pose proof (sentE_le_sent id ls). lia.
+Qed.
+
+Theorem exec_exact_nosend_ok : forall g ls s' os q,
+  exec g init ls = Some (s', os) -> (q = true -> s_pend s' = []) ->
+  exact_nosend_ok q ls os = true.
+Proof.
+  intros g ls s' os q H Hq. unfold exact_nosend_ok.
+  destruct q; [|reflexivity]. cbn [andb].
+  pose proof (exec_close _ _ _ _ _ H) as C. cbn in C.
+  destruct (closed_seen os); [reflexivity|]. cbn [negb].
+  apply forallb_forall. intros id _. apply Nat.eqb_eq. apply (once_exact _ _ _ _ id H C (Hq eq_refl)).
+Qed.
+
+(* ... and the strict one whenever no one-way command carries an id *)
+Theorem exec_exact_ok : forall g ls s' os q,
+  exec g init ls = Some (s', os) -> (q = true -> s_pend s' = []) ->
+  (forall c, In c (flat_map cmds_of ls) -> c_id c <> 0 -> expects c = true) ->
+  exact_ok q ls os = true.
+Proof.
+  intros g ls s' os q H Hq Hs. unfold exact_ok.
+  destruct q; [|reflexivity]. cbn [andb].
+  pose proof (exec_close _ _ _ _ _ H) as C. cbn in C.
+  destruct (closed_seen os); [reflexivity|]. cbn [negb].
+  apply forallb_forall. intros id _. destruct (id =? 0) eqn:Z; [reflexivity|]. cbn [orb].
+  apply Nat.eqb_eq. rewrite (once_exact _ _ _ _ id H C (Hq eq_refl)).
+  unfold sentE, sent. apply N.eqb_neq in Z.
+  induction (flat_map cmds_of ls) as [|c r IH]; [reflexivity|].
+  cbn [filter]. destruct (c_id c =? id) eqn:E.
+  - apply N.eqb_eq in E. rewrite (Hs c (or_introl eq_refl)) by congruence. cbn [andb length].
+    f_equal. apply IH. intros c' Hc'. apply Hs. right; assumption.
+  - cbn [andb]. apply IH. intros c' Hc'. apply Hs. right; assumption.
+Qed.
+
+Theorem exec_steps_ok_init : forall g ls s' os,
+  exec g init ls = Some (s', os) -> Forall label_wf ls -> steps_ok ost0 ls os = true.
+Proof. intros; eapply exec_steps_ok; eauto using tracks_init. Qed.
